@@ -21,6 +21,10 @@ type TxIndex struct {
 	mu      sync.Mutex
 	indexed map[string]int64 // upper-hex hash -> height
 	codes   map[string]uint32 // upper-hex hash -> DeliverTx result code
+	// earlier: a transaction included again in a later block overwrites its entry (as Tendermint's indexer does);
+	// when the view is limited to a height, the entry as it was at that height is what a node re-executing the
+	// following block sees
+	earlier map[string][]idxEntry
 	Lookups int64
 	Hits    int64
 	// LimitOn/Limit: only entries indexed at a height <= Limit are visible (used when a block is re-executed:
@@ -57,9 +61,44 @@ func (t *TxIndex) Close() {
 	os.RemoveAll(t.dir)
 }
 
+type idxEntry struct {
+	h    int64
+	code uint32
+}
+
+// remember keeps the entry that is about to be overwritten by an inclusion at a later height (lock held).
+func (t *TxIndex) remember(k string, height int64) {
+	if old, ok := t.indexed[k]; ok && old < height {
+		if t.earlier == nil {
+			t.earlier = map[string][]idxEntry{}
+		}
+		t.earlier[k] = append(t.earlier[k], idxEntry{old, t.codes[k]})
+	}
+}
+
+// visible returns the entry of k as the index showed it at the current limit (lock held).
+func (t *TxIndex) visible(k string) (int64, uint32, bool) {
+	h, ok := t.indexed[k]
+	if !ok {
+		return 0, 0, false
+	}
+	if !t.LimitOn || h <= t.Limit {
+		return h, t.codes[k], true
+	}
+	best, found := idxEntry{}, false
+	for _, e := range t.earlier[k] {
+		if e.h <= t.Limit && (!found || e.h > best.h) {
+			best, found = e, true
+		}
+	}
+	return best.h, best.code, found
+}
+
 func (t *TxIndex) Add(hash []byte, height int64) {
 	t.mu.Lock()
-	t.indexed[strings.ToUpper(hex.EncodeToString(hash))] = height
+	k := strings.ToUpper(hex.EncodeToString(hash))
+	t.remember(k, height)
+	t.indexed[k] = height
 	t.mu.Unlock()
 }
 
@@ -67,6 +106,7 @@ func (t *TxIndex) Add(hash []byte, height int64) {
 func (t *TxIndex) AddResult(hash []byte, height int64, code uint32) {
 	t.mu.Lock()
 	k := strings.ToUpper(hex.EncodeToString(hash))
+	t.remember(k, height)
 	t.indexed[k] = height
 	t.codes[k] = code
 	t.mu.Unlock()
@@ -75,10 +115,7 @@ func (t *TxIndex) AddResult(hash []byte, height int64, code uint32) {
 func (t *TxIndex) Has(hash []byte) bool {
 	t.mu.Lock()
 	defer t.mu.Unlock()
-	h, ok := t.indexed[strings.ToUpper(hex.EncodeToString(hash))]
-	if ok && t.LimitOn && h > t.Limit {
-		return false
-	}
+	_, _, ok := t.visible(strings.ToUpper(hex.EncodeToString(hash)))
 	return ok
 }
 
@@ -92,6 +129,7 @@ func (t *TxIndex) Reset() {
 	t.mu.Lock()
 	t.indexed = map[string]int64{}
 	t.codes = map[string]uint32{}
+	t.earlier = nil
 	t.LimitOn = false
 	t.mu.Unlock()
 }
@@ -124,11 +162,7 @@ func (t *TxIndex) handle(w http.ResponseWriter, r *http.Request) {
 	}
 	hx := strings.ToUpper(hex.EncodeToString(hb))
 	t.mu.Lock()
-	h, ok := t.indexed[hx]
-	if ok && t.LimitOn && h > t.Limit {
-		ok = false
-	}
-	code := t.codes[hx]
+	h, code, ok := t.visible(hx)
 	t.mu.Unlock()
 	if !ok {
 		fail(fmt.Sprintf("Tx (%s) not found", hx))
